@@ -39,7 +39,10 @@ class Exec(object):
         changes its schema files without a version bump and upgrader must still work on such files."""
         import sqlite3
         here = os.path.join(os.path.dirname(os.path.abspath(__file__)), "legacy")
-        for path, schema, version in ((self.world.channel_path, "channel-v1.sql", 1), (self.world.usage_path, "usage-v2.sql", 2)):
+        # every second legacy run: the usage database is still at version 1 (the server upgrades it at its first start;
+        # the upgraded connection is the one the service then keeps using)
+        usage = ("usage-v1.sql", 1) if (self.world.seed // 4) % 2 else ("usage-v2.sql", 2)
+        for path, schema, version in ((self.world.channel_path, "channel-v1.sql", 1), (self.world.usage_path,) + usage):
             if os.path.exists(path) or (schema.startswith("usage") and not self.cfg.usage):
                 continue
             c = sqlite3.connect(path)
